@@ -54,6 +54,7 @@ func cmdVerify(args []string) {
 			}
 			overlay[p[0]] = data
 		}
+		contractOverlay = overlay
 	}
 	eng, err := loadEngine(repoRoot+"/"+*mod, overlay)
 	if err != nil {
